@@ -15,6 +15,9 @@ ALLOWED_SHARED_STATE = {
 }
 
 
+from .frame_written import written_only_while_built  # noqa: E402
+
+
 def structural():
     """besides the style prototypes, one more package-wide frame obligation: no module of clikit holds module- or class-level
     state that its code mutates or re-binds, except the two caches listed above"""
@@ -49,31 +52,7 @@ def structural():
         "status": "proved" if not bad else "failed",
         "note": "; ".join(bad[:6]) if bad else "%d modules scanned" % n,
     })
-    # the application, its commands and their configurations are written while they are BUILT, never while a command line
-    # is processed: run(), resolve_command(), handle(), parse() and every getter leave the receiver as it was (frame of the
-    # history clause: whatever a run computes lives in objects created for that run)
-    builders = ("__init__", "configure")
-    prefixes = ("set_", "add_", "enable_", "disable_", "remove_")
-    for mod, cls, extra in (("clikit.console_application", "ConsoleApplication", ()),
-                            ("clikit.api.command.command", "Command", ()),
-                            ("clikit.api.config.config", "Config", ())):
-        try:
-            ci = P.module(mod).classes[cls]
-        except Exception as e:  # noqa
-            out.append({"name": "C17.%s.frame.written_only_while_built" % cls, "kind": "frame", "text": "", "status": "undecided",
-                        "note": "class not found: %r" % (e,)})
-            continue
-        bad = []
-        for m, fn in sorted(ci.methods.items()):
-            if m in builders or m.startswith(prefixes) or m in extra:
-                continue
-            bad += ["%s: %s" % (m, w) for w in st.self_writes(fn)]
-        out.append({
-            "name": "C17.%s.frame.written_only_while_built" % cls, "kind": "frame",
-            "text": "no method of %s other than the constructor and its set_ / add_ / enable_ / disable_ / remove_ methods "
-                    "stores into the receiver or into an object reached from it" % cls,
-            "status": "proved" if not bad else "failed", "note": "; ".join(bad[:6]),
-        })
+    out += written_only_while_built("C17")
     return out
 LEMMAS = []
 try:
